@@ -58,6 +58,14 @@ def _ins(kind, variant, url, idx, texts, culprit_off=0, family="config",
             "value": value, "spelling": spelling}
 
 
+def odd(n, base):
+    """Names for injected headers: mostly plain, some with characters that
+    mean something to string formatting (the text of a name ends up inside
+    error messages)."""
+    return [base, base, base, "%s" + base, base + "%", base + "%d", "{0}" +
+            base, base + "{}", "%%" + base, base + "%r"][n % 10]
+
+
 def enumerate_injections(ir, uni, kinds=None):
     entries, sections, before = layout.walk(uni)
     kinds = set(kinds or ALL_KINDS)
@@ -84,7 +92,10 @@ def enumerate_injections(ir, uni, kinds=None):
             out.append(_ins("subst-malformed", n % len(SUBST_MALFORMED), url,
                             idx, [SUBST_MALFORMED[n % len(SUBST_MALFORMED)]]))
         if "unknown-section-type" in kinds:
-            v = ["<zzunknown/>", "<zzunknown x>", "<ZZunknown y/>"][n % 3]
+            v = ["<%s/>", "<%s x>", "<%s y/>"][n % 3] % odd(
+                n // 3, ["zzunknown", "ZZunknown"][n % 2])
+            if n % 7 == 0:
+                v = "<zzunknown %s>" % odd(n // 7, "nm")
             out.append(_ins("unknown-section-type", n % 3, url, idx, [v]))
         kt = G.keytype_of(ir, ctx)
         if "unknown-key" in kinds and not has_wild(ir, ctx):
@@ -102,7 +113,10 @@ def enumerate_injections(ir, uni, kinds=None):
             others = [t for t in concrete if t not in admitted]
             if others:
                 t = others[n % len(others)]
-                v = ["<%s zzmis/>", "<%s zzmis>", "<%s/>"][n % 3] % t
+                v = ["<%s " + odd(n // 3, "zzmis") + "/>",
+                     "<%s " + odd(n // 3, "zzmis") + ">", "<%s/>"][n % 3]
+                v = v.replace("%s ", "\0 ", 1).replace("<%s/>", "<\0/>")
+                v = v.replace("\0", t)
                 out.append(_ins("misplaced-section", n % 3, url, idx, [v]))
             elif abstract:
                 a = abstract[n % len(abstract)]
@@ -121,10 +135,10 @@ def enumerate_injections(ir, uni, kinds=None):
                                     ["<%s %s/>" % (t, "*+"[n % 2])]))
                 else:
                     out.append(_ins("bad-section-name", 2, url, idx,
-                                    ["<%s zzwrong/>" % t]))
+                                    ["<%s %s/>" % (t, odd(n, "zzwrong"))]))
             if "missing-required-new" in kinds and has_required(ir, t) \
                     and it["kind"] == "multisection":
-                nm = "zzreq%d" % n
+                nm = odd(n // 2, "zzreq") + "%d" % n
                 if n % 2:
                     out.append(_ins("missing-required-new", 1, url, idx,
                                     ["<%s %s/>" % (t, nm)],
@@ -210,7 +224,7 @@ def enumerate_injections(ir, uni, kinds=None):
             for long_form in (False, True):
                 if "surplus-section" in kinds and not s.get("multi"):
                     if slot in ("*", "+"):
-                        nm = "zzsurplus%d" % n
+                        nm = odd(n, "zzsurplus") + "%d" % n
                     else:
                         nm = name
                     inst = G.minimal_section(ir, t, nm, long_form)
